@@ -105,7 +105,15 @@ MProcEnd(m) == LET r == BrIdle(w, m.p)
 RECURSIVE MFold(_, _, _)
 MFold(Op(_, _), m, s) == IF s = <<>> THEN m ELSE MFold(Op, Op(m, Head(s)), Tail(s))
 
-Mon0 == [p |-> Proc0, err |-> "", log |-> <<>>, done |-> <<>>]
+(* m.stat: what the Statistics feature and the per-layer summaries do:        *)
+(*   layers = layer_setup calls seen by the parent's Statistics feature (the  *)
+(*            "Total:" line is printed unless exactly one layer was run),     *)
+(*   sums   = "Ran n tests ..." lines reaching the parent's output (one per   *)
+(*            executed --repeat iteration of a layer whose stack was set up)  *)
+Mon0 == [p |-> Proc0, err |-> "", log |-> <<>>, done |-> <<>>,
+         stat |-> [layers |-> 0, sums |-> 0]]
+BumpLayers(m) == [m EXCEPT !.stat.layers = @ + 1]
+BumpSums(m) == [m EXCEPT !.stat.sums = @ + 1]
 
 (* ----- initial state --------------------------------------------------------*)
 Init ==
@@ -138,10 +146,13 @@ Start ==
        IF opt.par /\ mode = "parent"
        THEN /\ toRun' = <<>> /\ resumeQ' = all /\ shouldResume' = TRUE
             /\ pc' = "resume"
-       ELSE /\ toRun' = all /\ UNCHANGED <<resumeQ, shouldResume>>
+            \* the parent's own EmptyLayer: one layer_setup, one "Ran 0 tests" summary
+            \* per --repeat iteration
+            /\ mon' = [BumpLayers(mon) EXCEPT !.stat.sums = @ + opt.repeat]
+       ELSE /\ toRun' = all /\ UNCHANGED <<resumeQ, shouldResume, mon>>
             /\ pc' = "pick"
   /\ UNCHANGED <<w, opt, proc, mode, setupL, tdq, tdOptional, suStack, curLayer,
-                 iter, tIdx, shouldStop, anyBad, stash, mon, perr, executed, usedDev>>
+                 iter, tIdx, shouldStop, anyBad, stash, perr, executed, usedDev>>
 
 (* `while layers_to_run:` + run_layer's prologue up to tear_down_unneeded     *)
 Pick ==
@@ -155,8 +166,10 @@ Pick ==
           IN /\ curLayer' = l
              /\ tdq' = unneeded /\ tdOptional' = FALSE
              /\ pc' = "teardown"
+  \* feature.layer_setup(layer) for every layer the parent's loop takes up
+  /\ mon' = IF toRun # <<>> /\ mode = "parent" THEN BumpLayers(mon) ELSE mon
   /\ UNCHANGED <<w, opt, proc, mode, toRun, setupL, suStack, iter, tIdx,
-                 shouldStop, anyBad, resumeQ, shouldResume, stash, mon, perr,
+                 shouldStop, anyBad, resumeQ, shouldResume, stash, perr,
                  executed, usedDev>>
 
 (* one iteration of tear_down_unneeded's loop *)
@@ -264,8 +277,9 @@ IterationEnd ==
           /\ usedDev' = IF shouldStop /\ iter < opt.repeat
                         THEN usedDev \cup {"RepeatResetsStop"} ELSE usedDev
   /\ tIdx' = 1
+  /\ mon' = BumpSums(mon)                         \* output.summary(...)
   /\ UNCHANGED <<w, opt, proc, mode, pc, toRun, setupL, tdq, tdOptional,
-                 suStack, curLayer, anyBad, resumeQ, shouldResume, stash, mon,
+                 suStack, curLayer, anyBad, resumeQ, shouldResume, stash,
                  perr, executed>>
 
 (* back in Runner.run_tests after run_layer returned *)
@@ -294,7 +308,9 @@ ResumeNext ==
      THEN /\ stash' = <<setupL, mon, anyBad>>
           /\ proc' = proc + 1 /\ mode' = "child"
           /\ toRun' = <<Head(resumeQ)>> /\ resumeQ' = Tail(resumeQ)
-          /\ setupL' = {} /\ mon' = [Mon0 EXCEPT !.done = mon.done] /\ anyBad' = FALSE
+          /\ setupL' = {} /\ anyBad' = FALSE
+          \* spawn_layer_in_subprocess calls feature.layer_setup(layer) in the parent
+          /\ mon' = [Mon0 EXCEPT !.done = mon.done, !.stat = BumpLayers(mon).stat]
           /\ pc' = "pick"
           /\ UNCHANGED <<tdq, tdOptional>>
      ELSE /\ tdq' = Reverse(Order(w, SetToSeq(setupL))) /\ tdOptional' = TRUE
@@ -329,7 +345,7 @@ FinalTearDownDone ==
 (* restore the parent's monitor (the child's verdict is already in perr) *)
 BackInParent ==
   /\ pc = "resume2"
-  /\ mon' = [stash[2] EXCEPT !.done = mon.done] /\ pc' = "resume"
+  /\ mon' = [stash[2] EXCEPT !.done = mon.done, !.stat = mon.stat] /\ pc' = "resume"
   /\ UNCHANGED <<w, opt, proc, mode, toRun, setupL, tdq, tdOptional, suStack,
                  curLayer, iter, tIdx, shouldStop, anyBad, resumeQ, shouldResume,
                  stash, perr, executed, usedDev>>
